@@ -110,6 +110,159 @@ def _nonempty(p: Path, rel: str) -> bool | None:
     return None
 
 
+def _subexprs(p: Path) -> list[ast.AST]:
+    out: list[ast.AST] = []
+    for e in p.effects:
+        out.extend(ast.walk(e.node))
+    for _k, _o, t, _ln, _r in p.conds:
+        out.extend(ast.walk(t))
+    if p.ret is not None:
+        out.extend(ast.walk(p.ret))
+    return out
+
+
+def _is_buf(e: ast.AST) -> bool:
+    return u(e) == BUF or (isinstance(e, ast.Call) and u(e.func) in ("list", "tuple") and len(e.args) == 1
+                           and not e.keywords and u(e.args[0]) == BUF)
+
+
+def _bisect_edge(prog: Program, mod: Any, arg: ast.AST, scope: ast.AST) -> tuple[ast.AST | None, str, str]:
+    """(needle | None, shown, detail) for an index expression that must be bisect_right keyed by timestamp."""
+    resolved = _ext(prog, mod, arg)
+    if resolved != "bisect.bisect_right":
+        return None, u(arg), f"resolved: {resolved or 'n/a'}"
+    assert isinstance(arg, ast.Call)
+    a = positional(arg, ["a", "x", "lo", "hi"])
+    seq, key = a.get("a"), a.get("key")
+    if key is None and isinstance(seq, (ast.ListComp, ast.GeneratorExp)) and len(seq.generators) == 1 \
+            and not seq.generators[0].ifs and _is_buf(seq.generators[0].iter) \
+            and isinstance(seq.generators[0].target, ast.Name) \
+            and u(seq.elt) == f"{seq.generators[0].target.id}.timestamp" and isinstance(seq, ast.ListComp):
+        key_ok = True     # bisect over the list of timestamps of the buffer, in buffer order
+    else:
+        key_ok = _timestamp_key(prog, mod, key, scope=scope) and seq is not None and u(seq) == BUF
+    ok = key_ok and "lo" not in a and "hi" not in a and "x" in a
+    return (a.get("x") if ok else None), u(arg), "bisect_right, but not over the buffer keyed by the sample timestamp"
+
+
+_NEG = {ast.Gt: ast.LtE, ast.GtE: ast.Lt, ast.Lt: ast.GtE, ast.LtE: ast.Gt}
+
+
+def _relevance(prog: Program, mod: Any, p: Path, scope: ast.AST) -> dict[str, Any] | None:  # noqa: C901
+    """Recognise how the relevant samples are selected on this path.  Three behaviourally equal forms:
+
+      A  list|tuple(islice(buffer, lo, hi))        lo, hi = bisect_right(buffer, needle, key=timestamp)
+      B  list|tuple(buffer)[lo:hi]                 same indices
+      C  [s for s in buffer if lo_needle < s.timestamp <= hi_needle]   (also list(...)/tuple(...) of a generator)
+
+    Result: rels (texts the selection may appear as), lower/upper = (needle | None, shown, detail),
+    one_state (all buffer reads in one state epoch), problems, fatal.  None: no form on this path."""
+    out: dict[str, Any] = {"problems": [], "fatal": False, "one_state": True}
+    slices = [e for e in p.calls() if _ext(prog, mod, e.node) == "itertools.islice"]
+    subs = _subexprs(p)
+    form_b = {u(e): e for e in subs if isinstance(e, ast.Subscript) and isinstance(e.slice, ast.Slice)
+              and isinstance(e.value, ast.Call) and _is_buf(e.value) and u(e.value) != BUF}
+    form_c = {}
+    for e in subs:
+        comp = e
+        if isinstance(e, ast.Call) and u(e.func) in ("list", "tuple") and len(e.args) == 1 and not e.keywords \
+                and isinstance(e.args[0], ast.GeneratorExp):
+            comp = e.args[0]
+        elif not isinstance(e, ast.ListComp):
+            continue
+        if isinstance(comp, (ast.ListComp, ast.GeneratorExp)) and len(comp.generators) == 1 \
+                and _is_buf(comp.generators[0].iter) and comp.generators[0].ifs:
+            form_c[u(e)] = (e, comp)
+    n = len(slices) + len(form_b) + len(form_c)
+    if n == 0:
+        return None
+    if n != 1:
+        out.update(what="relevant samples = one contiguous selection of the buffer", fatal=True, rels=set())
+        out["problems"].append(f"the relevant samples are not one contiguous slice of the buffer ({n} selections "
+                               "of the buffer on this path)")
+        return out
+    if slices or form_b:
+        if slices:
+            sl = slices[0].node
+            assert isinstance(sl, ast.Call)
+            out["what"] = "islice(self._buffer, lower, upper)"
+            if not (len(sl.args) == 3 and not sl.keywords and u(sl.args[0]) == BUF):
+                out.update(fatal=True, rels=set())
+                out["problems"].append("the relevant samples are not a contiguous slice of the buffer in buffer order")
+                return out
+            lo, hi = sl.args[1], sl.args[2]
+            out["rels"] = {f"list({u(sl)})", f"tuple({u(sl)})"}
+            texts = (u(sl), u(lo), u(hi))
+        else:
+            sub = next(iter(form_b.values()))
+            assert isinstance(sub, ast.Subscript) and isinstance(sub.slice, ast.Slice)
+            out["what"] = "list(self._buffer)[lower:upper]"
+            lo, hi = sub.slice.lower, sub.slice.upper
+            if lo is None or hi is None or sub.slice.step is not None:
+                out.update(fatal=True, rels=set())
+                out["problems"].append("the slice of the buffer is open-ended or strided")
+                return out
+            out["rels"] = {u(sub)}
+            texts = (u(sub.value), u(lo), u(hi))
+        out["lower"] = _bisect_edge(prog, mod, lo, scope)
+        out["upper"] = _bisect_edge(prog, mod, hi, scope)
+        eps = {e.epoch for e in p.calls() if u(e.node) in texts}
+        out["one_state"] = len(eps) <= 1
+        return out
+    whole, comp = next(iter(form_c.values()))
+    out["what"] = "[s for s in self._buffer if lower < s.timestamp <= upper]"
+    out["rels"] = {u(whole)}
+    gen = comp.generators[0]
+    if gen.is_async or not isinstance(gen.target, ast.Name) or u(comp.elt) != gen.target.id:
+        out["fatal"] = True
+        out["problems"].append("the comprehension over the buffer does not select the samples themselves")
+        return out
+    ts = f"{gen.target.id}.timestamp"
+    atoms: list[tuple[ast.AST, ast.cmpop, ast.AST]] = []
+    todo = list(gen.ifs)
+    while todo:
+        c = todo.pop()
+        if isinstance(c, ast.BoolOp) and isinstance(c.op, ast.And):
+            todo.extend(c.values)
+        elif isinstance(c, ast.UnaryOp) and isinstance(c.op, ast.Not) and isinstance(c.operand, ast.Compare) \
+                and len(c.operand.ops) == 1 and type(c.operand.ops[0]) in _NEG:
+            atoms.append((c.operand.left, _NEG[type(c.operand.ops[0])](), c.operand.comparators[0]))
+        elif isinstance(c, ast.Compare):
+            left = c.left
+            for op, right in zip(c.ops, c.comparators):
+                atoms.append((left, op, right))
+                left = right
+        else:
+            out["fatal"] = True
+            out["problems"].append(f"the filter `{u(c)[:80]}` is not a comparison of the sample timestamp")
+            return out
+    lower: list[tuple[ast.AST, bool]] = []   # (needle, strict)
+    upper: list[tuple[ast.AST, bool]] = []   # (needle, inclusive)
+    for left, op, right in atoms:
+        if u(left) == ts and u(right) != ts:
+            other, ts_left = right, True
+        elif u(right) == ts and u(left) != ts:
+            other, ts_left = left, False
+        else:
+            out["fatal"] = True
+            out["problems"].append(f"the filter `{u(left)} {type(op).__name__} {u(right)}` does not bound the sample timestamp")
+            return out
+        if isinstance(op, (ast.Gt, ast.GtE)) == ts_left and isinstance(op, (ast.Gt, ast.GtE, ast.Lt, ast.LtE)):
+            lower.append((other, isinstance(op, (ast.Gt, ast.Lt))))
+        elif isinstance(op, (ast.Gt, ast.GtE, ast.Lt, ast.LtE)):
+            upper.append((other, isinstance(op, (ast.GtE, ast.LtE))))
+        else:
+            out["fatal"] = True
+            out["problems"].append(f"the filter uses `{type(op).__name__}` on the sample timestamp")
+            return out
+    shown = " and ".join(u(i) for i in gen.ifs)
+    out["lower"] = ((lower[0][0] if len(lower) == 1 and lower[0][1] else None), shown,
+                    f"{len(lower)} lower bound(s), strict: {[s for _n, s in lower]}")
+    out["upper"] = ((upper[0][0] if len(upper) == 1 and upper[0][1] else None), shown,
+                    f"{len(upper)} upper bound(s), inclusive: {[s for _n, s in upper]}")
+    return out
+
+
 def check_edge(run: Run, prog: Program) -> None:  # noqa: C901
     fn = prog.func(f"{HELPER}.resample")
     run.analysed(fn.qual)
@@ -121,6 +274,7 @@ def check_edge(run: Run, prog: Program) -> None:  # noqa: C901
         raise AnalysisError(f"{fn.qual}: no path found")
     te = TermEval()
     seen_rel = False
+    unrecognised = 0
     for p in paths:
         where = dict(node=fn.node, file=fn.file, path=p.describe())
         ret = p.ret
@@ -133,44 +287,28 @@ def check_edge(run: Run, prog: Program) -> None:  # noqa: C901
                   "the emitted sample carries the tick timestamp",
                   "the emitted sample is not stamped with the tick timestamp", **where)
         val = rargs.get("value")
-        # ---- the relevant-sample slice
-        slices = [e for e in p.calls() if _ext(prog, mod, e.node) == "itertools.islice"]
-        if len(slices) != 1:
-            run.violation("C08.EDGE", fn.qual, "relevant samples = islice(buffer, lower, upper)",
-                          f"the relevant samples are not one contiguous slice of the buffer ({len(slices)} "
-                          "islice calls on this path)", **where)
-            continue
-        sl = slices[0].node
-        assert isinstance(sl, ast.Call)
-        ok = len(sl.args) == 3 and not sl.keywords and u(sl.args[0]) == BUF
-        run.check(ok, "C08.EDGE", fn.qual, "islice(self._buffer, lower, upper)",
-                  "the relevant samples are not a contiguous slice of the buffer in buffer order", **where)
-        if not ok:
+        # ---- the relevant-sample selection (one of three recognised forms, see _relevance)
+        form = _relevance(prog, mod, p, norm_node)
+        if form is None:
+            unrecognised += 1
             continue
         seen_rel = True
-        rels = {f"list({u(sl)})", f"tuple({u(sl)})"}
-        edges = {}
-        for edge, arg in (("lower", sl.args[1]), ("upper", sl.args[2])):
-            resolved = _ext(prog, mod, arg)
-            ok = resolved == "bisect.bisect_right"
-            needle = None
-            if ok:
-                assert isinstance(arg, ast.Call)
-                a = positional(arg, ["a", "x", "lo", "hi"])
-                key = a.get("key")
-                key_ok = _timestamp_key(prog, mod, key, scope=norm_node)
-                ok = key_ok and u(a.get("a")) == BUF and "lo" not in a and "hi" not in a and "x" in a
-                needle = a.get("x")
+        rels, edges = form["rels"], {}
+        for msg in form["problems"]:
+            run.violation("C08.EDGE", fn.qual, form["what"], msg, **where)
+        if form["fatal"]:
+            continue
+        for edge in ("lower", "upper"):
+            ok, shown, detail = form[edge]
             what = ("samples stamped exactly T - age would be included" if edge == "lower"
                     else "samples stamped exactly T would be excluded")
-            run.check(ok, "C08.EDGE", fn.qual, f"{edge} index = {u(arg)[:120]}",
-                      f"the {edge} window edge does not use bisect_right keyed by the sample timestamp over "
-                      f"the buffer (resolved: {resolved or 'n/a'}): {what}, or a different ordering key is used",
-                      instance=f"{fn.qual}: {edge} edge uses bisect.bisect_right keyed by timestamp", **where)
-            edges[edge] = needle if ok else None
-        # all three buffer reads see the same buffer object
-        eps = {e.epoch for e in p.calls() if u(e.node) in (u(sl), u(sl.args[1]), u(sl.args[2]))}
-        run.check(len(eps) == 1, "C08.EDGE", fn.qual, "indices and slice taken from the same buffer state",
+            run.check(ok is not None, "C08.EDGE", fn.qual, f"{edge} edge = {shown[:120]}",
+                      f"the {edge} window edge is not {'exclusive' if edge == 'lower' else 'inclusive'} in the sample "
+                      f"timestamp over the buffer ({detail}): {what}, or a different ordering key is used",
+                      instance=f"{fn.qual}: {edge} edge {'exclusive' if edge == 'lower' else 'inclusive'}, keyed by timestamp",
+                      **where)
+            edges[edge] = ok
+        run.check(form["one_state"], "C08.EDGE", fn.qual, "indices and slice taken from the same buffer state",
                   "the buffer can be replaced/resized between computing the window indices and slicing",
                   **where)
         if edges.get("upper") is not None:
@@ -228,7 +366,13 @@ def check_edge(run: Run, prog: Program) -> None:  # noqa: C901
                       "without relevant samples the resampling function is still called or the emitted value "
                       "is not None", **where)
     if not seen_rel:
-        raise AnalysisError(f"{fn.qual}: relevant-sample slice not found on any path")
+        raise AnalysisError(f"{fn.qual}: relevant-sample selection not found on any path (recognised forms: "
+                            "islice over bisect indices, list(buffer)[lo:hi], a comprehension over the buffer "
+                            "filtered by the sample timestamp)")
+    if unrecognised:
+        run.violation("C08.EDGE", fn.qual, "relevant samples selected from the buffer on every path",
+                      f"{unrecognised} path(s) emit a sample without selecting the relevant samples from the buffer",
+                      node=fn.node, file=fn.file)
 
 
 def check_filter(run: Run, prog: Program) -> None:
